@@ -186,4 +186,19 @@ def guardRun (g : Nat) : List GuardEv → Nat × List GuardRes
     let q := guardRun r.1 rest
     (q.1, r.2 :: q.2)
 
+/-- Entry of `MeasureClockOffsets`: the length check comes before the guard (a length panic
+    leaves `numOpsInProgress` untouched), then the CAS. The theorems of Props/C16 about a round
+    assume `len(ms) = len(refclks)`; this is where the code enforces it. -/
+inductive EntryRes where
+  | lenPanic   -- panic "number of result offsets must be equal to the number of reference clocks"
+  | refused
+  | accepted
+deriving Repr, DecidableEq
+
+def entry (lenMs lenClks g : Nat) : Nat × EntryRes :=
+  if lenMs ≠ lenClks then (g, .lenPanic)
+  else match guardStep g .enter with
+    | (g', .accepted) => (g', .accepted)
+    | (g', _) => (g', .refused)
+
 end ScionTime.Collect
